@@ -39,6 +39,8 @@ KIND_NAMES = {
     203: 'C02/section_io: filesection.Piece.Write+ReadAt vs SectionIO.write_secs/read_at',
     204: 'C02/create_jobs: urldownloader.createJobs vs SectionIO.create_jobs',
     1601: 'C16/tier: tracker.Tier vs Tier.v (crun)',
+    1901: 'C19/private_flag: metainfo.NewInfo on generated encodings of the private field (integers incl. out of int64 range, strings, lists, dictionaries, absent) vs Priv.priv_of_raw',
+    1902: 'session/private: private, public and magnet torrents in the stepped event loop with a scripted HTTP tracker and scripted peers, DHT/PEX/dial switches on and off, optionally after a session restart: addresses known by source, DHT announcer and request queue, PEX senders, magnet export, metadata adoption, user agent / peer id / client version, dial of a probe listener vs Priv.v',
 }
 
 def kind_name(k):
@@ -76,6 +78,11 @@ PROPS = {
         'kinds': {101: {'quick': 2500, 'thorough': 60000}, 102: {'quick': 800, 'thorough': 20000}},
         'trusted': ['the dispatch of torrent.run() is mirrored by hand in VLoop.PumpEx', 'WriteCacheSize is large enough that the write-cache manager never defers a piece download in the generated scenarios'],
         'assumptions': ['the history was accepted by the model (s_bad = 0), which the correspondence establishes per generated history'],
+    },
+    'C19': {
+        'kinds': {1901: {'quick': 3000, 'thorough': 60000}, 1902: {'quick': 1200, 'thorough': 30000}},
+        'trusted': ['zeebo/bencode decoding of the private field beyond sampled agreement with Bencode.decode', 'the nictuku/dht node itself (the session is observed up to its request queue dhtPeerRequests; what the node sends is not observed)'],
+        'assumptions': ['the metainfo of a torrent does not change once known (info is set once)'],
     },
     'C14': {
         'kinds': {1401: {'quick': 2000, 'thorough': 50000}, 1402: {'quick': 1200, 'thorough': 30000}},
